@@ -55,6 +55,12 @@ func famCancel(w *World) {
 	w.describe("cancel hops=%d sendCancel=%v serverPropagate=%v relayPropagate=%v relayMax=%v end-to-end=%v", hops, sendCancel, srvProp, relayProp[:hops], maxTO, e2e)
 	cut := scnChance(1, 4)
 	cutAt := time.Duration(5+scn(40)) * w.Grid
+	// how the handler's connection fails: reset, or the peer's socket simply going away (clean
+	// end of stream); possibly while the server is already closing gracefully (its connections
+	// then wait for the handlers still running)
+	cutClean := scnChance(1, 2)
+	closeFirst := scnChance(1, 3)
+	var cutTime time.Duration
 
 	n := 1 + scn(5)
 	var fs []func()
@@ -119,14 +125,25 @@ func famCancel(w *World) {
 	if cut {
 		fs = append(fs, func() {
 			sleep(cutAt)
+			if closeFirst {
+				srv.Close()
+				w.Net.Fired["app.close-before-cut"]++
+			}
 			// cut the last hop (the one the handler's connection is on)
 			for _, l := range w.Net.Links {
-				if l.B.Owner == srv.Name && l.CutEv == 0 {
-					cutEv = w.event("fault", "net.cut link%d (handler's connection)", l.ID)
-					w.Net.Fired["net.cut"]++
-					l.reset(w.Net, "planned cut")
+				if l.B.Owner == srv.Name && l.CutEv == 0 && l.CloseEv[0] == 0 && l.CloseEv[1] == 0 {
+					if cutClean {
+						cutEv = w.event("fault", "net.peer-gone link%d (handler's connection: the peer's socket closes, clean end of stream)", l.ID)
+						w.Net.Fired["net.peer-gone"]++
+						l.A.Close()
+					} else {
+						cutEv = w.event("fault", "net.cut link%d (handler's connection)", l.ID)
+						w.Net.Fired["net.cut"]++
+						l.reset(w.Net, "planned cut")
+					}
 				}
 			}
+			cutTime = simrt.Elapsed()
 		})
 	}
 	w.tasks(fs...)
@@ -248,6 +265,29 @@ func famCancel(w *World) {
 			hdl := h.Deadline
 			if h.Waiting && h.WaitOver && h.DelayDone && h.HasDeadline && h.WaitedUntil > hdl+h.StallInWait+w.Grid {
 				w.violate("C14", "ctx-not-done-at-deadline", "call %s: the handler's wait ended by its own timer at %v, its context deadline %v (+%v injected stall) had passed without the context ending", s.Tag, h.WaitedUntil, hdl, h.StallInWait)
+			}
+			// "...cancelled when ... its connection fails": a handler that was waiting when its
+			// connection went away, with plenty of its delay and of its deadline left
+			if cutEv != 0 && h.Waiting && h.WaitOver && h.EnterAt < cutTime && h.StallInWait == 0 {
+				end := h.DelayEnd
+				if end == 0 {
+					end = h.WaitedUntil
+				}
+				// when the handler's node was told (its reader saw the end of the stream)
+				seen := time.Duration(0)
+				for _, l := range w.Net.Links {
+					if l.B.Owner == srv.Name && w.requestOnLink(r, l) && l.EndSeenAt[1] != 0 && (seen == 0 || l.EndSeenAt[1] < seen) {
+						seen = l.EndSeenAt[1]
+					}
+				}
+				if seen != 0 && end > seen+5*w.Grid && hdl > seen+5*w.Grid {
+					w.eval("C14.ctx-on-connection-failure")
+					if !(h.CtxDoneInWait && h.CtxDoneAt <= seen+3*w.Grid) {
+						cutTime = seen
+						w.violate("C14", "ctx-not-cancelled-on-connection-failure", "call %s: the handler's node saw its connection end at %v (clean end of stream=%v, server closing=%v) while the handler was waiting; its context was still live until %v (deadline %v)",
+							s.Tag, cutTime, cutClean, closeFirst, end, hdl)
+					}
+				}
 			}
 			if h.CtxDoneInWait && h.CtxDoneAt+w.Grid < hdl {
 				// something ended the handler's context before its deadline while it was still working:
